@@ -1,7 +1,95 @@
-import Atomman.Prelude
-open Atomman
+import Atomman.C16
+open Atomman Atomman.C16
 
-/-- stub: replaced when the C16 model is built. -/
-def handleC16 (_toks : List String) : String := err "op"
+/-- line protocol of the C16 model driver (numbers are exact rationals / ints on the wire):
+    p34 h k l | p43 atol h k i l | v34 u v w | v43 atol u v t w
+    vc2c hex atol V(9) idx(3|4)          -> 3 rationals
+    plane hex atol V(9) idx(3|4 ints)    -> s a(3) b(3) | n(3 rationals, unnormalised)
+    p2c setting u v w | c2p setting u v w
+    reduce ints… | allidx m reduce | fromstr codepoints…
+    fam rtol atol a b c alpha beta gamma -> family-or-none + 7 predicate bits -/
+def showV3 (v : V3 Rat) : String := showRats v.toList
+def showV4 (v : V4 Rat) : String := showRats [v.a, v.b, v.c, v.d]
+
+def showE {α : Type} (f : α → String) : Except Err α → String
+  | .ok a => f a
+  | .error e => e.toString
+
+def handleC16 (toks : List String) : String :=
+  match toks with
+  | "p34" :: rest =>
+    match parseRats? rest with
+    | some [h, k, l] => showV4 (plane3to4 (K := Rat) ⟨h, k, l⟩)
+    | _ => err "format"
+  | "p43" :: rest =>
+    match parseRats? rest with
+    | some [atol, h, k, i, l] => showE showV3 (plane4to3 atol ⟨h, k, i, l⟩)
+    | _ => err "format"
+  | "v34" :: rest =>
+    match parseRats? rest with
+    | some [u, v, w] => showV4 (vector3to4 (K := Rat) ⟨u, v, w⟩)
+    | _ => err "format"
+  | "v43" :: rest =>
+    match parseRats? rest with
+    | some [atol, u, v, t, w] => showE showV3 (vector4to3 atol ⟨u, v, t, w⟩)
+    | _ => err "format"
+  | "vc2c" :: hex :: atol :: rest =>
+    match parseBool? hex, parseRat? atol, parseRats? rest with
+    | some hex, some atol, some xs =>
+      match M3.ofList? (xs.take 9) with
+      | some V => showE showV3 (vectorCrystalToCartesian atol hex V (xs.drop 9))
+      | none => err "format"
+    | _, _, _ => err "format"
+  | "plane" :: hex :: atol :: rest =>
+    match parseBool? hex, parseRat? atol, parseRats? (rest.take 9), parseInts? (rest.drop 9) with
+    | some hex, some atol, some vs, some idx =>
+      match M3.ofList? vs with
+      | some V =>
+        match planeCrystalToCartesianUnnorm atol hex V idx with
+        | .error e => e.toString
+        | .ok n =>
+          let hkl := match idx with
+            | [h, k, _, l] => (h, k, l)
+            | [h, k, l] => (h, k, l)
+            | _ => (0, 0, 0)
+          match planeInPlane hkl.1 hkl.2.1 hkl.2.2 with
+          | .ok (a, b, s) => showInts ([s] ++ a.toList ++ b.toList) ++ " | " ++ showV3 n
+          | .error e => e.toString
+      | none => err "format"
+    | _, _, _, _ => err "format"
+  | "p2c" :: setting :: rest =>
+    match parseRats? rest with
+    | some [u, v, w] => showE showV3 (vectorPrimitiveToConventional (K := Rat) setting ⟨u, v, w⟩)
+    | _ => err "format"
+  | "c2p" :: setting :: rest =>
+    match parseRats? rest with
+    | some [u, v, w] => showE showV3 (vectorConventionalToPrimitive (K := Rat) setting ⟨u, v, w⟩)
+    | _ => err "format"
+  | "reduce" :: rest =>
+    match parseInts? rest with
+    | some l => showE showInts (reduceIndices l)
+    | none => err "format"
+  | ["allidx", m, r] =>
+    match m.toInt?, parseBool? r with
+    | some m, some r =>
+      let rows := allIndices m r
+      toString rows.length ++ " " ++ showInts rows.flatten
+    | _, _ => err "format"
+  | "fromstr" :: rest =>
+    match parseNats? rest with
+    | some codes => showE showRats (fromChars (codes.map Char.ofNat))
+    | none => err "format"
+  | "fam" :: rest =>
+    match parseRats? rest with
+    | some [rtol, atol, a, b, c, al, be, ga] =>
+      let p : CellParams Rat := ⟨a, b, c, al, be, ga⟩
+      let name := match identifyFamily rtol atol p with
+        | some f => f.toString
+        | none => "none"
+      name ++ " " ++ " ".intercalate ([isCubic rtol atol p, isHexagonal rtol atol p, isTetragonal rtol atol p,
+        isRhombohedral rtol atol p, isOrthorhombic rtol atol p, isMonoclinic rtol atol p,
+        isTriclinic rtol atol p].map showBool)
+    | _ => err "format"
+  | _ => err "op"
 
 def main : IO Unit := runDriver handleC16
